@@ -175,7 +175,7 @@ CHECKS = {
              "(slots used < declared extent) no load observes a slot written by a returned frame, accesses stay inside the array and "
              "frames are disjoint, and finds the clobber under the deviation ExtentTooSmall. Binding: hooks in load/store/loadNPtr of "
              "the four interpreters record every slot access while 90 recursive / interface-bearing shapes and their holders are encoded "
-             "at depths up to 30 (quick) / 1100 (thorough) through four reach modes and four interpreters with GC-forcing marshalers; TLC "
+             "at depths up to 30 (quick) / 300 (thorough; chains of 1150 nodes in the after-failure histories) through four reach modes and four interpreters with GC-forcing marshalers; TLC "
              "validates the traces against EncVMTrace.tla, outputs are compared with encoding/json, eight kinds of cycles must error.",
         note="trusted: TLC; frame boundaries are inferred from the frame base of each recorded access; encoding/json for the expected document. "
              "Hooks: internal/encoder/vm*/util.go and context.go (build tag verif).",
